@@ -111,6 +111,20 @@ type world struct {
 	// listedOnly: oneConfig mounts one host directory that every instance only lists
 	listedOnly bool
 	misrouted  string
+	fsCfgs     []wazero.FSConfig // per instance, all derived from one base before any instantiation
+}
+
+// deriveFS: one base configuration with three mounts, and per instance a configuration derived from it
+// that adds the instance's own directory at "/".
+func deriveFS(root, sub string, total int) []wazero.FSConfig {
+	empty := filepath.Join(root, "empty")
+	os.MkdirAll(empty, 0o755)
+	base := wazero.NewFSConfig().WithReadOnlyDirMount(empty, "/b0").WithReadOnlyDirMount(empty, "/b1").WithReadOnlyDirMount(empty, "/b2")
+	out := make([]wazero.FSConfig, total)
+	for i := range out {
+		out[i] = base.WithDirMount(filepath.Join(root, sub, fmt.Sprintf("i%d", i)), "/")
+	}
+	return out
 }
 
 func newRuntime(engine string, cache wazero.CompilationCache, w *world, idx int) wazero.Runtime {
@@ -190,8 +204,12 @@ func (w *world) instantiate(rt wazero.Runtime, bin []byte, root string, idx int)
 		}
 		w.compiled[key] = cm
 	}
+	fsc := wazero.NewFSConfig().WithDirMount(in.dir, "/")
+	if w.fsCfgs != nil {
+		fsc = w.fsCfgs[idx]
+	}
 	mcfg := wazero.NewModuleConfig().WithName("").WithStdout(in.stdout).WithStderr(stderr).
-		WithFSConfig(wazero.NewFSConfig().WithDirMount(in.dir, "/")).WithArgs(fmt.Sprintf("inst%d", idx))
+		WithFSConfig(fsc).WithArgs(fmt.Sprintf("inst%d", idx))
 	if w.oneConfig != nil {
 		mcfg = w.oneConfig
 	}
@@ -325,6 +343,14 @@ func (c11) Run(t *tape.Tape, cfg sim.Config) (res sim.Result) {
 			}
 		}
 	}
+	// sometimes the instances' file-system configurations are all derived, BEFORE any instantiation, from one
+	// base configuration with three mounts of its own (an empty directory): the instance's own directory is
+	// then the fourth pre-open
+	derivedFS := !sharedMount && cfg.Class != "one-config-value" && t.Chance(1, 4)
+	if derivedFS {
+		pa.PreFd, pb.PreFd = 6, 6
+		res.Stat("probe.file_system_configurations_derived_from_one_base", 1)
+	}
 	bins := [][]byte{pa.Encode(), pb.Encode()}
 	plans := []*plan.Plan{pa, pb}
 	n := t.Range(2, 4)
@@ -388,6 +414,9 @@ func (c11) Run(t *tape.Tape, cfg sim.Config) (res sim.Result) {
 			w.oneConfig = w.oneConfig.WithFSConfig(wazero.NewFSConfig().WithDirMount(sharedDir, "/"))
 			w.listedOnly = true
 		}
+	}
+	if derivedFS {
+		w.fsCfgs = deriveFS(root, "multi", total)
 	}
 	if t.Chance(1, 2) {
 		f, err := os.CreateTemp(root, "shared-log-*")
@@ -524,6 +553,9 @@ func (c11) Run(t *tape.Tape, cfg sim.Config) (res sim.Result) {
 				f.Close()
 			}
 		}()
+		if derivedFS {
+			lw.fsCfgs = deriveFS(root, "lone", total)
+		}
 		rt := newRuntime(cfg.Engine, nil, lw, 0)
 		in := lw.instantiate(rt, bins[which[i]], filepath.Join(root, "lone"), i)
 		in.calls = ncalls[i]
